@@ -1,14 +1,15 @@
 (* line driver for the C04 model.
    mode "accept" (default): one recording per line:  <app0> <worker0> <number of stoppers> <event> <event> ...
      events: P<i> post (hook own.locked)   T take (worker.before_process)   D<i>a / D<i>s deliver
-             (a = on the worker, s = synchronously on the caller)   N done (worker.decremented)
+             (a = on the worker, s = synchronously on the caller)   N / N0 done (worker.decremented; N0: the
+             wrapped handler had returned false for the message = rejected it)
              L<i> reset.locked   W<i> reset.waiting   Q<i> reset.quit   S<i> a stop call has returned
              (i = stopper thread, 0 if omitted)
              G application object gone   M moveToOwnThread   R<i> logging call returned   X exit
      output: "OK" or "REJ <k>" (index of the first impossible event) followed by the model state
-             reached: stuck= err= rc= worker= stops= app= mtx= pending= qlen= inflight= log= accepted= obs=
+             reached: stuck= leak= err= rc= du= worker= stops= app= mtx= pending= qlen= inflight= log= accepted= obs=
    mode "oracle": "<posted ids,> | <delivered ids,> | <stopped 0/1>"  ->  1/0  (prop_c04_b)
-   mode "run": "<app0> <worker0> <k> <action> ..." actions p<m> t d s<i> c<i> w<i> g m (APost ATake ADone
+   mode "run": "<app0> <worker0> <k> <action> ..." actions p<m> t d d0 s<i> c<i> w<i> g m (APost ATake ADone true, ADone false
              AResetStart AResetCheck AResetWake AAppDie AMove) -> final state *)
 open Shutdown_model
 let rec nat_of_int n = if n <= 0 then O else S (nat_of_int (n-1))
@@ -21,18 +22,18 @@ let ev_of tok = match tok.[0] with
   | 'T' -> ETake
   | 'D' -> let n = String.length tok in
            EDeliver (nat_of_int (int_of_string (String.sub tok 1 (n-2))), tok.[n-1] = 's')
-  | 'N' -> EDone | 'L' -> EResetLocked (idx tok) | 'W' -> EResetWaiting (idx tok) | 'Q' -> EResetQuit (idx tok)
+  | 'N' -> EDone (tok <> "N0") | 'L' -> EResetLocked (idx tok) | 'W' -> EResetWaiting (idx tok) | 'Q' -> EResetQuit (idx tok)
   | 'S' -> EStopEnd (idx tok)
   | 'G' -> EAppGone | 'M' -> EMove | 'R' -> EReturned (nat_of_int (tail_int tok)) | 'X' -> EExit
   | _ -> failwith ("bad event " ^ tok)
 let act_of tok = match tok.[0] with
-  | 'p' -> APost (nat_of_int (tail_int tok)) | 't' -> ATake | 'd' -> ADone | 's' -> AResetStart (idx tok)
+  | 'p' -> APost (nat_of_int (tail_int tok)) | 't' -> ATake | 'd' -> ADone (tok <> "d0") | 's' -> AResetStart (idx tok)
   | 'c' -> AResetCheck (idx tok) | 'w' -> AResetWake (idx tok) | 'g' -> AAppDie | 'm' -> AMove
   | _ -> failwith ("bad action " ^ tok)
 let b2 b = if b then 1 else 0
 let show_state s nobs =
-  Printf.sprintf "stuck=%d err=%d rc=%d worker=%d stops=%s app=%d mtx=%d pending=%d qlen=%d inflight=%s log=%d accepted=%d obs=%d"
-    (b2 (stuck_b s)) (b2 (errorb s)) (b2 rc_src) (b2 s.worker)
+  Printf.sprintf "stuck=%d leak=%d err=%d rc=%d du=%d worker=%d stops=%s app=%d mtx=%d pending=%d qlen=%d inflight=%s log=%d accepted=%d obs=%d"
+    (b2 (stuck_b s)) (b2 (leaked_b s)) (b2 (errorb s)) (b2 rc_src) (b2 du_src) (b2 s.worker)
     (String.concat "" (List.map (function RIdle -> "I" | RCheck -> "C" | RSleep -> "S" | RDone -> "D" | RError -> "E") s.stops))
     (b2 s.app0) (b2 s.mtx) (int_of_nat s.pending) (len s.queue)
     (match s.inflight with None -> "-" | Some m -> string_of_int (int_of_nat m))
